@@ -2,6 +2,8 @@
 #include <stdio.h>
 #include <string.h>
 
+#include <vector>
+
 #include "../rt/sim_api.h"
 #include "c08c.h"
 
@@ -19,15 +21,20 @@ struct M
   bool in_step;
   bool finished;
 } m;
-enum { P_MOVE_ADVANCE = 0, P_COPY_ADVANCE, P_RAW_ADVANCE, P_KEPT_NODE, P_SELF_ASSIGN, P_LAST_REF_BY_ASSIGN, P_CYCLE };
+enum { P_MOVE_ADVANCE = 0, P_COPY_ADVANCE, P_RAW_ADVANCE, P_KEPT_NODE, P_SELF_ASSIGN, P_LAST_REF_BY_ASSIGN, P_CYCLE, P_LONG_CHAIN };
 const char *probe_names[] = {"advanced_by_move_assignment", "advanced_by_copy_assignment", "advanced_by_raw_pointer_assignment", "node_held_by_a_second_handle",
-                             "self_assignment_executed", "assignment_released_the_object_holding_its_source", "ownership_cycle_broken_by_assigning_to_a_member_handle", nullptr};
+                             "self_assignment_executed", "assignment_released_the_object_holding_its_source", "ownership_cycle_broken_by_assigning_to_a_member_handle", "chain_of_1500_to_5000_objects_released_at_its_head", nullptr};
 const char *no_faults[] = {nullptr};
+std::vector<unsigned char> *long_seen;
+int long_destroyed;
+bool long_done;
 
 void reset()
 {
   memset(&plan, 0, sizeof plan);
   memset(&m, 0, sizeof m);
+  long_done = false;
+  long_destroyed = 0;
   for (int i = 0; i <= C08C_MAXN; i++)
     m.link[i] = -1;
   m.head = m.keep = m.zroot = -1;
@@ -39,6 +46,14 @@ void do_plan(int)
   for (int k = 0; k < C08C_MAXN; k++)
     plan.move[k] = (int)sim_plan(3);
   plan.self_at = sim_plan(4) == 0 ? (int)sim_plan((uint32_t)plan.n) : -1;
+  plan.long_n = 0;
+  if (sim_plan(40) == 0) {
+    // depth is an input size too: thousands of objects that each hold the only reference to the next
+    plan.long_n = 1500 + (int)sim_plan(3500);
+    sim_probe(P_LONG_CHAIN);
+    sim_set_step_cap(4000000);
+    return;
+  }
   plan.cycle = sim_plan(5) == 0;
   if (plan.cycle) {
     plan.n = 1 + (int)sim_plan(4);  // 1: a node that owns itself
@@ -94,6 +109,11 @@ void settle(const char *when)
 }
 void check()
 {
+  if (plan.long_n > 0) {
+    if (!long_done && !sim_failed())
+      sim_fail("C08:chain:scenario-did-not-finish", "the release of the long chain did not return");
+    return;
+  }
   if (!m.finished && !sim_failed())
     sim_fail("C08:chain:scenario-did-not-finish", "the walk over the chain did not reach its end");
   for (int i = 0; i <= plan.n; i++)
@@ -110,6 +130,10 @@ int stuck(int deadlock, char *cls, size_t n)
 }
 void describe(char *buf, size_t n)
 {
+  if (plan.long_n > 0) {
+    snprintf(buf, n, "{\"chain_of_nodes\": %d, \"operation\": \"head = nullptr\"}", plan.long_n);
+    return;
+  }
   if (plan.cycle) {
     static const char *bk[] = {"a handle to another object", "a temporary handle to another object", "another object's plain pointer", "nullptr", "an empty handle"};
     snprintf(buf, n, "{\"cycle_of_nodes\": %d, \"member_handle_of_node\": %d, \"is_assigned\": \"%s\"}", plan.n, plan.break_at, bk[plan.break_kind]);
@@ -143,6 +167,34 @@ void c08c_roots(int head, int keep)
   m.head = head;
   m.keep = keep;
   m.rooted = true;
+}
+void c08c_long_begin(int n)
+{
+  SimOracleScope os;
+  sim_event(820, (uint64_t)n, 0);
+  delete long_seen;
+  long_seen = new std::vector<unsigned char>((size_t)n, 0);
+  long_destroyed = 0;
+  long_done = false;
+}
+void c08c_long_destroyed(int id)
+{
+  if (id < 0 || id >= plan.long_n || long_done) {
+    sim_fail(long_done ? "C08:chain:not-destroyed-at-last-release" : "C08:chain:destroy-count", "node %d of the long chain destroyed %s", id,
+             long_done ? "after the release of the head had returned" : "(no such node)");
+    return;
+  }
+  if ((*long_seen)[(size_t)id]++)
+    sim_fail("C08:chain:destroyed-twice", "node %d destroyed a second time", id);
+  long_destroyed++;
+}
+void c08c_long_released(void)
+{
+  sim_event(821, (uint64_t)long_destroyed, 0);
+  long_done = true;
+  if (long_destroyed != plan.long_n)
+    sim_fail("C08:chain:not-destroyed-at-last-release", "the head of a chain of %d objects was released, %d of them were destroyed by that operation",
+             plan.long_n, long_destroyed);
 }
 void c08c_zroot(int z)
 {
